@@ -1358,3 +1358,49 @@ Proof.
   - intros j name Hj. rewrite Ha in Hj. destruct (He j name Hj) as (r & Hm). exists r.
     rewrite Ho; [exact Hm|]. intro; subst. apply Hk. eapply nth_error_In; eauto.
 Qed.
+
+(* ------------------------------------------------------------------ a whole construction history *)
+Lemma build_other ops : forall st st' k,
+  pset_build ops st = Some st' -> ~ In k (map bop_key ops) ->
+  dget k (ps_mapping (fst st')) = dget k (ps_mapping (fst st)) /\
+  ps_arguments (fst st') = ps_arguments (fst st) /\ ps_argvalue (fst st') = ps_argvalue (fst st).
+Proof.
+  induction ops as [|o r IH]; intros st st' k H Hk; cbn in H.
+  - injection H as <-. auto.
+  - destruct (pset_add o st) as [st1|] eqn:E; [|discriminate].
+    destruct st as [ps names], st1 as [ps1 names1].
+    destruct (add_registers _ _ _ _ _ E) as (_ & Ho & Ha & Hv).
+    destruct (IH _ _ k H) as (A & B & C). { intro; apply Hk; now right. }
+    cbn [fst] in *. rewrite A, B, C, Ha, Hv. repeat split.
+    apply Ho. intro; subst. apply Hk. now left.
+Qed.
+
+(* every object registered under a key that is not reused afterwards is the entry of its key at the end:
+   this is the hypothesis "resolvable" for primitives (and for terminals registered under their printed form) *)
+Theorem build_lookup ops : forall st st' o,
+  pset_build ops st = Some st' -> NoDup (map bop_key ops) -> In o ops ->
+  dget (bop_key o) (ps_mapping (fst st')) = Some (bop_node o).
+Proof.
+  induction ops as [|o0 r IH]; intros st st' o H ND Hin; [contradiction|].
+  cbn in H. destruct (pset_add o0 st) as [st1|] eqn:E; [|discriminate].
+  inversion ND as [|? ? Hnin ND']; subst. destruct Hin as [->|Hin].
+  - destruct st as [ps names], st1 as [ps1 names1].
+    destruct (add_registers _ _ _ _ _ E) as (Hk & _).
+    destruct (build_other r _ _ (bop_key o) H Hnin) as (A & _). cbn [fst] in *. now rewrite A.
+  - eapply IH; eauto.
+Qed.
+
+Theorem build_keeps_ok ops : forall st st',
+  pset_build ops st = Some st' ->
+  (forall k, In k (map bop_key ops) -> ~ In k (ps_arguments (fst st))) ->
+  pset_ok (fst st) -> arg_entries (fst st) -> pset_ok (fst st') /\ arg_entries (fst st').
+Proof.
+  induction ops as [|o r IH]; intros st st' H Hk PO AE; cbn in H.
+  - injection H as <-. auto.
+  - destruct (pset_add o st) as [st1|] eqn:E; [|discriminate].
+    destruct st as [ps names], st1 as [ps1 names1]. cbn [fst] in *.
+    destruct (add_keeps_ok _ _ _ _ _ E (Hk _ (or_introl eq_refl)) PO AE) as (PO1 & AE1).
+    destruct (add_registers _ _ _ _ _ E) as (_ & _ & Ha & _).
+    apply (IH (ps1, names1) st' H); cbn [fst]; auto.
+    intros k Hin. rewrite Ha. apply Hk. now right.
+Qed.
